@@ -1414,30 +1414,50 @@ def file_backed_rules(fb, R):
        M1: a file-backed mapping is (re)mapped only after the file was grown to the size that is being mapped."""
     r1, r2 = 'O1-index-file-open-keeps-contents', 'M1-file-grown-before-mapping'
     n1 = 0
+
+    def opens_behind(f, nid, depth=0):
+        """open() calls whose result is the value of expression nid: directly, through a local, or returned by a helper -> [(Fn, call)]"""
+        x = U.scn(f, nid)
+        hops = 0
+        while x is not None and x.get('k') == 'var' and x.get('vk') == 'local' and hops < 3:
+            hops += 1
+            init = U.local_init(f, x['d'])
+            if init is None or x['d'] in U.assigned_vars(f):
+                return []
+            x = U.scn(f, init)
+        if x is None or x.get('k') != 'call':
+            return []
+        if E.is_extern_c(x) and x.get('q') in ('open', 'open64') and len(x.get('args', [])) >= 2:
+            return [(f, x)]
+        out = []
+        if depth < 2 and 'u' in x:
+            for g in fb.by_usr.get(x['u'], [])[:1]:
+                if g.has_cfg:
+                    for r_ in [m for m in g.all_nodes() if m.get('k') == 'return' and 'sub' in m]:
+                        out += opens_behind(g, r_['sub'], depth + 1)
+        return out
+    seen_open = set()
     for fn in fb.functions:
         if not fn.has_cfg or not fn.q.startswith('osmium::index::'):
             continue
-        news = [n for n in fn.all_nodes() if n.get('k') == 'new']
-        for o in [n for n in fn.all_nodes() if E.is_extern_c(n) and n.get('q') in ('open', 'open64') and len(n.get('args', [])) >= 2]:
-            # role: its result (through a local) is an argument of the `new Map{fd}` of this function
-            d = None
-            for m in fn.all_nodes():
-                if m.get('k') == 'decl':
-                    for v in m['vars']:
-                        if isinstance(v.get('init'), int) and o['id'] in fn.subtree(v['init']):
-                            d = v['d']
-            feeds = any(any(fn.nodes[x].get('k') == 'var' and fn.nodes[x].get('d') == d for x in fn.subtree(nw['id'])) for nw in news) if d is not None else False
-            if not feeds:
-                continue
-            n1 += 1
-            flags = fn.const_value(o['args'][1])
-            if flags is None:
-                R.broken('%s: open() flags are not a constant expression' % fn.q)
-                continue
-            ok = (flags & O_ACCMODE) == O_RDWR and (flags & O_CREAT) and not (flags & O_TRUNC) and not (flags & O_EXCL)
-            R.check(ok, r1, fn.q + '#open-flags', fn.loc(o['id']),
-                    '%s opens the index file with flags %#o: a file-backed index must be opened O_RDWR|O_CREAT and without O_TRUNC / O_EXCL '
-                    '(re-opening "…_file_array,<file>" must find the entries that were stored before)' % (fn.q, flags), 'flags %#o' % flags)
+        for nw in [n for n in fn.all_nodes() if n.get('k') == 'new']:
+            for x_ in fn.subtree(nw['id']):
+                if x_ == nw['id'] or fn.nodes[x_].get('k') != 'var' or fn.nodes[x_].get('vk') != 'local':
+                    continue
+                for (g, o) in opens_behind(fn, x_):
+                    if (g.pat, o.get('o')) in seen_open:
+                        continue
+                    seen_open.add((g.pat, o.get('o')))
+                    n1 += 1
+                    flags = g.const_value(o['args'][1])
+                    if flags is None:
+                        R.broken('%s: open() flags are not a constant expression' % g.q)
+                        continue
+                    ok = (flags & O_ACCMODE) == O_RDWR and (flags & O_CREAT) and not (flags & O_TRUNC) and not (flags & O_EXCL)
+                    # keyed by the function that constructs the map: that is where the oracle needs the file contents kept
+                    R.check(ok, r1, fn.q + '#open-flags', g.loc(o['id']),
+                            '%s opens the index file (in %s) with flags %#o: a file-backed index must be opened O_RDWR|O_CREAT and without O_TRUNC / O_EXCL '
+                            '(re-opening "…_file_array,<file>" must find the entries that were stored before)' % (fn.q, g.q, flags), 'flags %#o' % flags)
     if n1 == 0:
         R.broken('no open() feeding a file-backed map constructor found')
     # M1
